@@ -79,11 +79,41 @@ CHECKS["C13"] = {
 	"technique": "MIR -> SMT-LIB2 interleaving model, decided by z3/cvc5",
 	"engine": "mir-smt",
 }
+CHECKS["C09"] = {
+	"text": "What decides which tiles a filter stage passes is the coverage pyramid it consults (lookup: contains_coord guard; stream: intersect_pyramid). CBMC decides for pyramids with all 32 levels symbolic: "
+		"set_zoom_min/max keep exactly the levels in [min, max] for every u8 pair (incl. min > max, > 31); intersect is the level-wise set intersection; contains_coord and intersect_pyramid are exact; "
+		"a valid geographic box always maps to a tile box (no error for filter_bbox to unwrap).",
+	"note": "The filter Operation objects themselves (Box<dyn OperationTrait>, async_trait futures) are out of reach for CBMC (no verdict at the smallest bound, DESIGN 0.2 item 3): that they consult exactly this pyramid is by reading. Build glue / VPL parsing outside.",
+	"technique": BMCT,
+}
+CHECKS["C03"] = {
+	"text": "Kernels from which readers and operations derive their advertised coverage: folding include_coord over stored tiles yields exactly their bounding box per level (tar / directory / PMTiles readers); "
+		"versatiles: union of block boxes from an independently encoded sparse index; pipeline unions keep both operands; converting reader: advertised = selected pre-image set.",
+	"note": "Zoom levels of the folded tiles concrete per instance, coordinates symbolic; MBTiles MIN/MAX SQL, PMTiles directory walk (async), file-name parsing outside.",
+	"technique": BMCT,
+}
+CHECKS["C02"] = {
+	"text": "The default bounding-box stream of TilesReaderTrait (lookup loop) on a reader with a symbolic content (box minus a hole): for every requested box of the stated size, all four empty shapes included, "
+		"the collected stream is exactly the lookups inside the box, each once, same bytes.",
+	"note": "Boxes of at most 2x2 tiles; hand-rolled block_on (futures::lock::Mutex uncontended). Outside: the versatiles reader's chunked stream, MBTiles SQL, multi-threaded execution (C14), pipeline operations; the converting reader's stream/lookup consistency is decided under C06 (Engine B).",
+	"technique": BMCT,
+}
+CHECKS["C10"] = {
+	"text": "Layer-level kernel of the merge: VectorTileLayer::add_from_layer on two equally named layers written by an independent MVT encoder from symbolic ground truths whose key/value tables hold the same entries in different order: "
+		"features of both in order, ids / geometry unchanged, every tag still denotes its ground-truth key and value.",
+	"note": "2 table entries, 1 feature with 1 tag per layer; HashMap model; BTreeMap-based GeoProperties executed for real. The from_vectortiles_merged operation (dyn sources, async) and merge_tiles' grouping are outside.",
+	"technique": BMCT + "; differential against ground truth from an independent encoder",
+}
 NOT_APPLICABLE = {
 	"C12": "interrupted writes: needs whole-function runs of the async writers followed by readers on a buffer that depends on a symbolic crash point, and rests on gzip/brotli rejecting truncated streams (loops over input inside the codecs) - out of reach of CBMC (DESIGN.md section 5)",
 	"C14": "completion orders of tokio::spawn + buffer_unordered: Kani has no threads or tokio runtime; an SMT model of buffer_unordered would verify the model, not the repository (DESIGN.md section 5)",
 	"C18": "parse_vpl is a recursive nom combinator parser over heap strings: no CBMC verdict on 4 symbolic bytes in 25 min / 8 GB; the shortest interesting texts need 5-8 bytes (DESIGN.md section 5)",
 }
+NOT_APPLICABLE["C08"] = ("from_overlayed is a Vec<Box<dyn OperationTrait>> of async_trait operations: every harness that polls Operation::get_tile_data / get_tile_stream "
+	"(2 echo sources, concrete level, codecs stubbed, futures leaked) ran out of memory (5-38 GB) or time without a verdict - CBMC unwinds the dynamic dispatch recursively together with anyhow's drop glue "
+	"(DESIGN.md 0.2 item 3); nothing decisive of the property is left outside that code")
+NOT_APPLICABLE["C17"] = ("the JSON string kernel did not finish at its smallest bound: escape_json_string with real formatting on ONE char and parse_quoted_json_string on one production each timed out at 1200 s "
+	"(ByteIterator with its 4 KiB buffer and boxed dyn Read, char::is_control tables, format!); numbers (dec2flt) and TileJSON round trips (BTreeMap, regex, async I/O) are further out (DESIGN.md 0.2 item 5, section 8 fallback rule)")
 PENDING = "check under construction in this session (harness set not yet registered)"
 for p in ["C02", "C03", "C08", "C09", "C10", "C17", "C19"]:
 	NOT_APPLICABLE.setdefault(p, PENDING)
